@@ -26,7 +26,7 @@ FLOOR = {"quick": 60, "thorough": 4000}
 REQUIRED_LABELS = {"quick": ["has-default", "star-args", "kw-only", "decorated", "multi-line-header", "nested-def", "class", "runs=2", "via-cli"], "thorough": []}
 ASSUMPTIONS = [
     "erase() removes docstring Expr nodes, arg/return annotations, turns AnnAssign-with-value into Assign, drops value-less AnnAssign, clears type_comment - on both sides identically",
-    "the four shapes that are open findings (P19 async docstring, P26 comment in multi-line header, P27 one-line def, P28 raw docstring) are generated only under their own labels",
+    "the shapes that are open findings (P19 async docstring, P26 comment in multi-line header, P27 one-line def, P28 raw docstring, P68 decorated def with a trailing header comment) are generated only under their own labels",
 ]
 
 
@@ -182,8 +182,8 @@ def oracle(case):
                 break
             got = erased(after)
             if got != want:
-                if open_h & {"P19", "P27", "P28"}:
-                    for h in sorted(open_h & {"P19", "P27", "P28"}):
+                if open_h & {"P19", "P27", "P28", "P68"}:
+                    for h in sorted(open_h & {"P19", "P27", "P28", "P68"}):
                         r.covered(h)
                 else:
                     r.fail("ast-changed", "%s %s" % (tag, _ast_diff(want, got)))
@@ -264,7 +264,7 @@ def layer_main(ctx):
 
 
 def layer_hazards(ctx):
-    ctx.run_given("hazard-shapes", case_strategy(hazards=("P19", "P26", "P27", "P28")), oracle, max(10, ctx.cfg["n"] // 4))
+    ctx.run_given("hazard-shapes", case_strategy(hazards=("P19", "P26", "P27", "P28", "P68")), oracle, max(10, ctx.cfg["n"] // 4))
 
 
 def layer_fault(ctx):
